@@ -114,7 +114,7 @@ theorem closed_sabaSyncMid (c : SabaConfig) : Closed (sabaSyncMid c) :=
   closed_append (closed_iteP _ (closed_sabaCorr _ _) (closed_drift _ _)) (by closed_lit2)
 
 theorem sabaSyncOps_keep (c : SabaConfig) (hk : c.keep = true) (f : Flags) :
-    sabaSyncOps c f = (if f.isSync then [Prim.savePJ]
+    sabaSyncOps c f = (if f.isSync then (if c.copyInside then [] else [Prim.savePJ])
       else [Prim.savePJ] ++ sabaSyncMid c ++ [Prim.restorePJ], f) := by
   unfold sabaSyncOps sabaSyncMid
   cases f.isSync <;> simp [hk]
@@ -127,7 +127,7 @@ theorem saba_exec_sync_keep_pj (S : Sem T PJ X V A) (c : SabaConfig) (hk : c.kee
     rw [exec_append, exec_append]
     simp only [exec, denote]
     rw [savedKept_sabaSyncMid c]
-  · rfl
+  · cases c.copyInside <;> rfl
 
 /-- after an unsynchronised `synchronize` positions and velocities are functions of `pj` -/
 theorem saba_sync_posvel (c : SabaConfig) (hk : c.keep = true) (f : Flags) (hs : f.isSync = false)
@@ -202,7 +202,7 @@ theorem srel_sync (S : Sem T PJ X V A) (c : SabaConfig) (hk : c.keep = true)
   · intro hh
     rw [initF_isSync'] at hh
     rw [sabaSyncOps_keep c hk]; simp only [hh, if_true]
-    exact ⟨rfl, rfl⟩
+    cases c.copyInside <;> exact ⟨rfl, rfl⟩
 where initF_isSync' : (initF x.1).isSync = x.1.isSync := by unfold initF; split <;> rfl
 
 theorem srel_sync_obs (S : Sem T PJ X V A) (c : SabaConfig) (hk : c.keep = true)
@@ -223,7 +223,7 @@ theorem srel_sync_obs (S : Sem T PJ X V A) (c : SabaConfig) (hk : c.keep = true)
     exact ⟨this.1 hp.1, this.2.1 hp.2.1, this.2.2.1 hp.2.2⟩
   · rw [sabaSyncOps_keep c hk]; simp only [hs, if_true]
     have := h.1.2.2 (by rw [hi]; exact hs)
-    exact ⟨h.1.2.1, this.1, this.2⟩
+    cases c.copyInside <;> exact ⟨h.1.2.1, this.1, this.2⟩
 
 theorem srel_run (S : Sem T PJ X V A) (c : SabaConfig) (hk : c.keep = true) (hs : c.safe = false)
     (σ : List (Op (X × V))) (hσ : ∀ o ∈ σ, o.benign = true) (x y : Flags × St PJ X V A)
